@@ -1,12 +1,387 @@
-//! C10 — (stub: no ops yet)
+//! C10 — `SpectrumProcessor::process` and `spectrum::deisotope`
+//!   process max deiso u32(minmz) level centroid charge? [n (u32 mz, u32 int)…] -> [k (u32 mass, u32 int)…] u32(tic) | panic
+//!   deiso   maxz u32(ppm) u32(minmz) [n (u32 mz, u32 int)…]                    -> [n (u32 mz, u32 int, z?, env?)…]
+//! (`x?` is `0` or `1 x`; floats are bit patterns.)
 use super::Info;
-use crate::proto::{Case, Rng, Tier, Toks};
+use crate::proto::{Case, Out, Rng, Tier, Toks};
+use sage_core::mass::NEUTRON;
+use sage_core::spectrum::{deisotope, Precursor, RawSpectrum, Representation, SpectrumProcessor};
 
-pub const OPS: &[&str] = &[];
-pub const INFO: Info = Info { rule: "", serial: false };
+pub const OPS: &[&str] = &["process", "deiso"];
+pub const INFO: Info = Info {
+    rule: "process: (a) every intensity vector over {1,2,3} of length <= L (quick 4, thorough 7) on a fixed m/z grid x every \
+           max_peaks 0..=L+1, deisotope off (ties everywhere); (b) random spectra, n in 0..60 (sometimes up to 400 / 2000), \
+           intensities from a small set (ties) or continuous, duplicate m/z, shuffled or ascending m/z, max_peaks in \
+           {0,1,2,n-1,n,n+1,150,...}, level in {1,2,3}, profile flag, precursor charge none/0..6; (c) isotope-cluster spectra \
+           (clusters of 2-6 peaks at charge 1-4, spacing NEUTRON/z with ppm jitter at 0, +-5, +-9.9, +-10.1, +-20 ppm, decreasing / \
+           equal / increasing intensities, overlapping clusters, noise peaks) with deisotope on/off and min_deisotope_mz \
+           0 / below / on a cluster member / inside / above the cluster; (d) directed: empty, one peak, index-0 parent (the \
+           `j == 0` break), equal-key entries with different charge (unstable-sort tie).  deiso: the cluster spectra of (c) \
+           with max_charge in 0..6, ppm in {0,5,10,20}, the same min_mz placements, plus a few unsorted arrays. \
+           non-trivial = at least 2 peaks (process) / at least one cluster (deiso); distinct by request line",
+    serial: false,
+};
 
-pub fn gen(_rng: &mut Rng, _tier: Tier, _emit: &mut dyn FnMut(Case)) {}
+#[derive(Clone)]
+struct Spec {
+    k: usize,
+    deiso: bool,
+    min_mz: f32,
+    level: u8,
+    centroid: bool,
+    charge: Option<u8>,
+    peaks: Vec<(f32, f32)>,
+}
 
-pub fn exec(_op: &str, _t: &mut Toks) -> Option<String> {
-    None
+fn req_process(s: &Spec) -> String {
+    let mut o = Out::new();
+    o.raw("process").n(s.k).b(s.deiso).f32(s.min_mz).n(s.level).b(s.centroid);
+    match s.charge {
+        None => {
+            o.n(0);
+        }
+        Some(z) => {
+            o.n(1).n(z);
+        }
+    }
+    o.n(s.peaks.len());
+    for &(m, i) in &s.peaks {
+        o.f32(m).f32(i);
+    }
+    o.finish()
+}
+
+fn req_deiso(maxz: u8, ppm: f32, min_mz: f32, peaks: &[(f32, f32)]) -> String {
+    let mut o = Out::new();
+    o.raw("deiso").n(maxz).f32(ppm).f32(min_mz).n(peaks.len());
+    for &(m, i) in peaks {
+        o.f32(m).f32(i);
+    }
+    o.finish()
+}
+
+const JITTER_PPM: &[f32] = &[0.0, 0.0, 0.0, 2.0, -2.0, 5.0, -5.0, 9.9, -9.9, 10.1, -10.1, 20.0, -20.0];
+const SMALL_INT: &[f32] = &[0.0, 1.0, 1.0, 2.0, 2.0, 3.0, 5.0, 10.0, 100.0];
+
+/// a spectrum made of isotope clusters + noise, ascending m/z; returns (peaks, m/z of cluster members)
+fn cluster_spectrum(rng: &mut Rng, big: bool) -> (Vec<(f32, f32)>, Vec<f32>) {
+    let mut peaks: Vec<(f32, f32)> = Vec::new();
+    let mut members = Vec::new();
+    let nclusters = 1 + rng.below(if big { 12 } else { 3 });
+    let mut base = 100.0f32 + (rng.below(4000) as f32) * 0.1;
+    for _ in 0..nclusters {
+        let z = 1 + rng.below(4) as u32;
+        let len = 2 + rng.below(5);
+        let iso = NEUTRON / z as f32;
+        let shape = rng.below(7);
+        let mut int = if rng.chance(1, 2) { *rng.pick(&[10.0f32, 100.0, 1000.0]) } else { 1.0 + (rng.unit() as f32) * 1000.0 };
+        let mut mz = base;
+        for m in 0..len {
+            if m > 0 {
+                // spacing relative to the previous member, off by a chosen number of ppm of the new m/z
+                let ideal = mz + iso;
+                mz = ideal + ideal * *rng.pick(JITTER_PPM) / 1_000_000.0;
+            }
+            peaks.push((mz, int));
+            members.push(mz);
+            int = match shape {
+                0..=3 => int * 0.5,                        // decreasing
+                4 => int,                                  // equal (never an isotope: needs strictly less)
+                5 => int * 1.5,                            // increasing
+                _ => if rng.chance(1, 2) { int * 0.5 } else { int * 2.0 },
+            };
+        }
+        // next cluster: overlapping (inside this one), adjacent, or far
+        base = match rng.below(4) {
+            0 => base + iso * 0.5,
+            1 => base + NEUTRON / (1 + rng.below(3)) as f32,
+            _ => base + 3.0 + (rng.below(3000) as f32) * 0.1,
+        };
+    }
+    let noise = rng.below(if big { 60 } else { 6 });
+    for _ in 0..noise {
+        let mz = 60.0 + (rng.unit() as f32) * 1500.0;
+        let int = if rng.chance(1, 2) { *rng.pick(SMALL_INT) } else { (rng.unit() as f32) * 500.0 };
+        peaks.push((mz, int));
+    }
+    if rng.chance(1, 6) && !peaks.is_empty() {
+        // duplicate m/z
+        let p = *rng.pick(&peaks);
+        peaks.push((p.0, *rng.pick(SMALL_INT)));
+    }
+    peaks.sort_by(|a, b| a.0.total_cmp(&b.0));
+    (peaks, members)
+}
+
+fn pick_min_mz(rng: &mut Rng, peaks: &[(f32, f32)], members: &[f32]) -> (f32, &'static str) {
+    let lo = peaks.first().map(|p| p.0).unwrap_or(100.0);
+    let hi = peaks.last().map(|p| p.0).unwrap_or(100.0);
+    match rng.below(9) {
+        0 | 1 => (0.0, "minmz-zero"),
+        2 => (lo - 1.0, "minmz-below"),
+        3 | 4 if !members.is_empty() => (*rng.pick(members), "minmz-on-member"),
+        5 if !members.is_empty() => {
+            let m = *rng.pick(members);
+            (f32::from_bits(m.to_bits() + 1), "minmz-just-above-member")
+        }
+        6 => (hi + 1.0, "minmz-above"),
+        _ => (lo + (hi - lo) * (rng.unit() as f32), "minmz-inside"),
+    }
+}
+
+fn random_peaks(rng: &mut Rng, n: usize) -> Vec<(f32, f32)> {
+    let ties = rng.chance(1, 2);
+    let grid = rng.chance(1, 3);
+    let mut v: Vec<(f32, f32)> = (0..n)
+        .map(|_| {
+            let mz = if grid { 100.0 + rng.below(12) as f32 * 50.0 } else { 50.0 + (rng.unit() as f32) * 1950.0 };
+            let int = if ties { *rng.pick(SMALL_INT) } else { (rng.unit() as f32) * 10000.0 };
+            (mz, int)
+        })
+        .collect();
+    if !rng.chance(1, 4) {
+        v.sort_by(|a, b| a.0.total_cmp(&b.0));
+    }
+    v
+}
+
+fn pick_k(rng: &mut Rng, n: usize) -> usize {
+    match rng.below(9) {
+        0 => 0,
+        1 => 1,
+        2 => 2,
+        3 => n.saturating_sub(1),
+        4 => n,
+        5 => n + 1,
+        6 => 150,
+        7 => n / 2,
+        _ => rng.below(n + 2),
+    }
+}
+
+fn emit_process(emit: &mut dyn FnMut(Case), s: &Spec, tag: &'static str, extra: Option<&'static str>) {
+    let n = s.peaks.len();
+    let mut ints: Vec<u32> = s.peaks.iter().map(|p| p.1.to_bits()).collect();
+    ints.sort();
+    let has_ties = ints.windows(2).any(|w| w[0] == w[1]);
+    let mut c = Case::new(req_process(s))
+        .tag(tag)
+        .tag_if(n == 0, "empty")
+        .tag_if(n == 1, "one-peak")
+        .tag_if(has_ties, "intensity-ties")
+        .tag_if(s.k == 0, "k=0")
+        .tag_if(n < s.k, "n<k")
+        .tag_if(n == s.k, "n=k")
+        .tag_if(n > s.k, "n>k")
+        .tag_if(s.level == 2 && s.deiso, "ms2-deisotope")
+        .tag_if(s.level == 2 && !s.deiso, "ms2-plain")
+        .tag_if(s.level != 2, "ms1-or-ms3")
+        .tag_if(!s.centroid, "profile")
+        .tag_if(s.charge.is_none(), "charge-none")
+        .nontrivial(n >= 2);
+    if let Some(e) = extra {
+        c = c.tag(e);
+    }
+    emit(c);
+}
+
+pub fn gen(rng: &mut Rng, tier: Tier, emit: &mut dyn FnMut(Case)) {
+    let quick = tier == Tier::Quick;
+    let base = Spec { k: 0, deiso: false, min_mz: 0.0, level: 2, centroid: true, charge: Some(2), peaks: vec![] };
+
+    // (d) directed
+    for &deiso in &[false, true] {
+        for &level in &[1u8, 2] {
+            for k in 0..3 {
+                // empty, one peak
+                emit_process(emit, &Spec { k, deiso, level, ..base.clone() }, "directed", None);
+                emit_process(emit, &Spec { k, deiso, level, peaks: vec![(500.0, 7.0)], ..base.clone() }, "directed", None);
+            }
+        }
+    }
+    // profile data: MS2 panics, MS1 does not
+    for &level in &[1u8, 2, 3] {
+        emit_process(emit, &Spec { k: 5, level, centroid: false, peaks: vec![(300.0, 1.0), (400.0, 2.0)], ..base.clone() }, "directed", None);
+    }
+    // index-0 parent: the `j == 0` break means peak 0 is only ever examined for i <= 1
+    {
+        let iso = NEUTRON;
+        let p = vec![(500.0f32, 100.0f32), (500.0 + iso, 50.0), (500.0 + 2.0 * iso, 25.0)];
+        for k in [0usize, 1, 2, 3, 10] {
+            emit_process(emit, &Spec { k, deiso: true, peaks: p.clone(), ..base.clone() }, "directed", Some("index0-parent"));
+        }
+        emit(Case::new(req_deiso(2, 10.0, 0.0, &p)).tag("directed").tag("index0-parent"));
+        // unstable-sort tie: A (idx 0, int 15, never merged into), A' (idx 1, 10 + 5 merged, z = 2), B isotope of A'
+        let iso2 = NEUTRON / 2.0;
+        let t = vec![(500.0f32, 15.0f32), (500.0, 10.0), (500.0 + iso2, 5.0)];
+        for k in [1usize, 2, 3] {
+            emit_process(emit, &Spec { k, deiso: true, charge: Some(2), peaks: t.clone(), ..base.clone() }, "directed", Some("unstable-tie"));
+        }
+        emit(Case::new(req_deiso(2, 10.0, 0.0, &t)).tag("directed").tag("unstable-tie"));
+    }
+
+    // tolerance / intensity boundaries of the isotope test, charge 1..3, through both ops
+    for z in 1..=3u32 {
+        for &basemz in &[200.0f32, 500.0, 1200.0] {
+            let iso = NEUTRON / z as f32;
+            let hi = basemz + iso;
+            let tol = 10.0f32 * hi / 1_000_000.0;
+            for &off in &[0.0f32, 1.0, -1.0] {
+                for ulps in [-2i32, -1, 0, 1, 2] {
+                    let target = hi + off * tol;
+                    let mz2 = f32::from_bits((target.to_bits() as i32 + ulps) as u32);
+                    for &(i1, i2) in &[(100.0f32, 50.0f32), (100.0, 100.0), (100.0, f32::from_bits(100.0f32.to_bits() - 1)), (50.0, 100.0)] {
+                        let p = vec![(basemz - 50.0, 1.0), (basemz, i1), (mz2, i2)];
+                        emit(Case::new(req_deiso(3, 10.0, 0.0, &p)).tag("directed").tag("tolerance-boundary"));
+                        if ulps == 0 {
+                            emit_process(emit, &Spec { k: 2, deiso: true, charge: Some(3), peaks: p, ..base.clone() }, "directed", Some("tolerance-boundary"));
+                        }
+                    }
+                }
+            }
+        }
+    }
+
+    // (a) small scope, ties everywhere
+    let l_max = if quick { 4 } else { 7 };
+    for len in 0..=l_max {
+        let total = 3usize.pow(len as u32);
+        for code in 0..total {
+            let mut c = code;
+            let peaks: Vec<(f32, f32)> = (0..len)
+                .map(|i| {
+                    let v = (c % 3) as f32 + 1.0;
+                    c /= 3;
+                    // m/z grid with one duplicated position so that (intensity, mass) ties occur too
+                    let mz = [100.0f32, 200.0, 200.0, 300.0, 150.0, 400.0, 120.0][i];
+                    (mz, v)
+                })
+                .collect();
+            for k in 0..=(len + 1) {
+                emit_process(emit, &Spec { k, peaks: peaks.clone(), ..base.clone() }, "small-scope", None);
+            }
+        }
+    }
+
+    // (b) random spectra
+    let nrand = if quick { 700 } else { 100000 };
+    for _ in 0..nrand {
+        let n = match rng.below(20) {
+            0 => 0,
+            1 => 1,
+            2 => 61 + rng.below(if quick { 340 } else { 1940 }),
+            _ => rng.below(61),
+        };
+        let peaks = random_peaks(rng, n);
+        let k = pick_k(rng, n);
+        let level = *rng.pick(&[2u8, 2, 2, 2, 1, 3]);
+        let deiso = rng.chance(1, 3);
+        let charge = if rng.chance(1, 4) { None } else { Some(rng.below(7) as u8) };
+        let centroid = !rng.chance(1, 25);
+        let min_mz = *rng.pick(&[0.0f32, 150.0, 500.0, 3000.0]);
+        emit_process(emit, &Spec { k, deiso, min_mz, level, centroid, charge, peaks }, "random", None);
+    }
+
+    // (c) isotope clusters, through both ops
+    let nclu = if quick { 900 } else { 200000 };
+    for it in 0..nclu {
+        let big = it % 10 == 0;
+        let (mut peaks, members) = cluster_spectrum(rng, big);
+        let (min_mz, mtag) = pick_min_mz(rng, &peaks, &members);
+        let unsorted = rng.chance(1, 20);
+        if unsorted {
+            rng.shuffle(&mut peaks);
+        }
+        let n = peaks.len();
+        if it % 2 == 0 {
+            let k = pick_k(rng, n);
+            let deiso = !rng.chance(1, 5);
+            let charge = if rng.chance(1, 4) { None } else { Some(rng.below(6) as u8) };
+            let level = if rng.chance(1, 10) { 1 } else { 2 };
+            emit_process(
+                emit,
+                &Spec { k, deiso, min_mz, level, centroid: true, charge, peaks },
+                "clusters",
+                Some(if unsorted { "unsorted-mz" } else { mtag }),
+            );
+        } else {
+            let maxz = *rng.pick(&[0u8, 1, 2, 2, 3, 3, 3, 4, 4, 6]);
+            let ppm = *rng.pick(&[10.0f32, 10.0, 10.0, 10.0, 10.0, 5.0, 20.0, 0.0]);
+            emit(
+                Case::new(req_deiso(maxz, ppm, min_mz, &peaks))
+                    .tag("clusters")
+                    .tag(if unsorted { "unsorted-mz" } else { mtag })
+                    .tag_if(maxz == 0, "maxz=0")
+                    .nontrivial(maxz > 0),
+            );
+        }
+    }
+}
+
+pub fn exec(op: &str, t: &mut Toks) -> Option<String> {
+    match op {
+        "process" => {
+            let k = t.usize()?;
+            let deiso = t.bool()?;
+            let min_mz = t.f32()?;
+            let level = t.usize()? as u8;
+            let centroid = t.bool()?;
+            let charge = t.opt(|t| t.usize())?.map(|z| z as u8);
+            let peaks = t.list(|t| Some((t.f32()?, t.f32()?)))?;
+            if !t.done() {
+                return None;
+            }
+            let mut raw = RawSpectrum::default_with_file_id(0);
+            raw.ms_level = level;
+            raw.id = "s".into();
+            raw.representation = if centroid { Representation::Centroid } else { Representation::Profile };
+            raw.precursors = vec![Precursor { mz: 600.0, charge, ..Default::default() }];
+            raw.mz = peaks.iter().map(|p| p.0).collect();
+            raw.intensity = peaks.iter().map(|p| p.1).collect();
+            let sp = SpectrumProcessor::new(k, deiso, min_mz);
+            let out = sp.process(raw);
+            let mut o = Out::new();
+            o.n(out.peaks.len());
+            for p in &out.peaks {
+                o.f32(p.mass).f32(p.intensity);
+            }
+            o.f32(out.total_ion_current);
+            Some(o.finish())
+        }
+        "deiso" => {
+            let maxz = t.usize()? as u8;
+            let ppm = t.f32()?;
+            let min_mz = t.f32()?;
+            let peaks = t.list(|t| Some((t.f32()?, t.f32()?)))?;
+            if !t.done() {
+                return None;
+            }
+            let mz: Vec<f32> = peaks.iter().map(|p| p.0).collect();
+            let int: Vec<f32> = peaks.iter().map(|p| p.1).collect();
+            let d = deisotope(&mz, &int, maxz, ppm, min_mz);
+            let mut o = Out::new();
+            o.n(d.len());
+            for p in &d {
+                o.f32(p.mz).f32(p.intensity);
+                match p.charge {
+                    None => {
+                        o.n(0);
+                    }
+                    Some(z) => {
+                        o.n(1).n(z);
+                    }
+                }
+                match p.envelope {
+                    None => {
+                        o.n(0);
+                    }
+                    Some(e) => {
+                        o.n(1).n(e);
+                    }
+                }
+            }
+            Some(o.finish())
+        }
+        _ => None,
+    }
 }
